@@ -43,9 +43,15 @@ def cases(tier, seed):
                 for e in (-40, 20, 30):  # whole-matrix scalings ~1e-12, 1e6, 1e9: thresholds are relative
                     out.append({"key": f"rank/{m}x{n}/r={r}/c={'-'.join(map(str, comp))}/hh/scale=2^{e}", "grp": "rank", "m": m, "n": n, "vals": vals, "kU": "hh", "kV": "hh", "scale": e})
     # unusual-but-legal variants; spectrum / rank from the oracle
-    for m, n in itertools.product(range(1, 5), repeat=2):
+    for m, n in list(itertools.product(range(1, 5), repeat=2)) + [(6, 4), (8, 6), (7, 5), (4, 7), (12, 4)]:
         for nm in xf_names(m, n):
+            if max(m, n) > 4 and nm in ("rowgraded", "colgraded"):
+                continue  # grading 2^-9 per row reaches the rank threshold beyond 4 rows: borderline by construction, nothing to decide
             out.append({"key": f"rank/xf/{m}x{n}/{nm}", "grp": "rank", "m": m, "n": n, "vals": None, "kU": "xf", "kV": "xf", "xf": nm})
+    # exact integer rank-one outer products with one long dimension: the default threshold scales with max(m, n)
+    for m, n in ((2, 128), (2, 300), (300, 2), (128, 2), (3, 200), (2, 400)):
+        for t in range(3):
+            out.append({"key": f"rank1long/{m}x{n}/t={t}", "grp": "rank1long", "m": m, "n": n, "t": t})
     for n in range(1, 5):
         for nm in xf_names(n, n, hermitian=True):
             out.append({"key": f"moore/xf/n={n}/{nm}", "grp": "moore", "n": n, "xf": nm})
@@ -179,6 +185,20 @@ def run_case(case, seed):
             fails.append(fail("input_unchanged", "argument modified", **tags))
         return {"key": case["key"], "fails": fails, "nontrivial": r > 0, "digest": digest(A, "rank"),
                 "path": f"r<{'p' if r < min(m, n) else '=p'},nullR={min(n - r, 2)},nullL={min(m - r, 2)},mult={min(info['max_mult'], 2)}", "obs": [f["clause"] for f in fails]}
+    if grp == "rank1long":
+        m, n = case["m"], case["n"]
+        a = fill.quat_int(m, 1, -3, 3).astype(float)
+        b = fill.quat_int(1, n, -3, 3).astype(float)
+        if not a.any():
+            a[0, 0, 1] = 1.0
+        if not b.any():
+            b[0, 0, 2] = 1.0
+        A = O.qmatmul(a, b)
+        ok, rk = call(u.rank, G.to_quat(A))
+        okh, rkh = call(u.rank, G.to_quat(O.qH(A)))
+        if not ok or rk != 1 or not okh or rkh != 1:
+            fails.append(fail("rank_value", f"rank of an exact rank-one {m}x{n} outer product = {rk} (conjugate transpose: {rkh}); documented threshold eps*max(m,n)*s_max", fn="rank", grp="rank1long", m=m, n=n))
+        return {"key": case["key"], "fails": fails, "nontrivial": True, "digest": digest(A, "r1"), "path": "rank1long", "obs": [f["clause"] for f in fails]}
     if grp == "opts":
         m, n = case["m"], case["n"]
         p = min(m, n)
